@@ -186,6 +186,36 @@ func c19(c *Ctx) {
 		}
 		sets = append(sets, vs{cn.fn, cases, def, kind})
 	}
+	// every function that can build both ACCEPT encodings chooses between them by the negotiated
+	// version (not by what the local node supports, nor by the shape of another object)
+	{
+		dispatching := map[*ssa.Function]bool{}
+		for _, s := range sets {
+			dispatching[s.fn] = true
+		}
+		for _, fn := range p.ModuleFuncs() {
+			if fn.Pkg == nil || fn.Pkg != p.SSAPkg("portalwire") {
+				continue
+			}
+			made := map[string]ssa.Instruction{}
+			for _, b := range fn.Blocks {
+				for _, in := range b.Instrs {
+					if al, ok := in.(*ssa.Alloc); ok && al.Heap {
+						if pt, ok := al.Type().(*types.Pointer); ok {
+							if tn := core.TypeName(pt.Elem()); tn == "Accept" || tn == "AcceptV1" {
+								made[tn] = al
+							}
+						}
+					}
+				}
+			}
+			if len(made) < 2 {
+				continue
+			}
+			r.Check(dispatching[fn], "R2.version-sets", core.FuncName(fn)+" encoding-choice", p.Pos(made["AcceptV1"].Pos()),
+				"both ACCEPT encodings are built here and the choice is a dispatch on the negotiated version", "this function builds either ACCEPT encoding without dispatching on the negotiated version: a peer whose common version differs from the local maximum receives an encoding it does not decode")
+		}
+	}
 	// advertised default set
 	var advertised []int64
 	if g := p.SSAPkg("portalwire").Members["Versions"]; g != nil {
